@@ -227,7 +227,19 @@ func bodyC13(c snapCase, x *vkit.Ctx) {
 	}
 	// the same through a real node: serf.Create on that snapshot (with the same
 	// rejoin-after-leave setting in its configuration) dials exactly that set
-	if c.SerfLayer && !c.RealFS {
+	slash := false
+	for name := range want {
+		if strings.Contains(name, "/") {
+			// handleRejoin hands "name/addr" to memberlist.Join, which splits at the
+			// first slash: that is C10's known finding name-with-slash-not-rejoined,
+			// not a matter of remembering the leave
+			slash = true
+		}
+	}
+	if c.SerfLayer && !c.RealFS && slash {
+		x.Label("serf-layer-restart:skipped(name-with-slash, known under C10)")
+	}
+	if c.SerfLayer && !c.RealFS && !slash {
 		r.alive = map[string]string{}
 		for k, v := range want {
 			r.alive[k] = v
